@@ -11,7 +11,7 @@ the ELF container (file header, section headers, program headers) is assembled h
 import io, struct
 from tools.lib.framework import impl_call
 
-CLAIMED = False
+CLAIMED = True
 CONFIG = {'assumptions': [
     'P (place) = r_offset: debug sections of a relocatable object have sh_addr 0; S = st_value of the referenced symbol',
     'relocation sections are found by the conventional name .rel/.rela + target name (what the library does)',
